@@ -3,7 +3,9 @@ package main
 import (
 	"encoding/json"
 	"flag"
+	"go/types"
 	"strings"
+	"time"
 
 	"fmt"
 	"golang.org/x/tools/go/ssa"
@@ -79,6 +81,50 @@ func doDump(c *Ctx, what string) {
 		return
 	}
 	switch what {
+	case "effects":
+		cs := BuildCensus(c)
+		t0 := time.Now()
+		e := NewEffects(c)
+		fmt.Printf("effects: %d functions, %d iterations, %.1fs\n", len(e.funcs), e.iters, time.Since(t0).Seconds())
+		nobj, nglob := 0, 0
+		for _, r := range cs.Regs {
+			for _, m := range []*ssa.Function{r.CheckApplies, r.Execute} {
+				if m == nil {
+					continue
+				}
+				if e.ModsParam(m, 1) {
+					nobj++
+					fmt.Printf("OBJ %s %s\n   %s\n", r.ID(), m.Name(), strings.Join(e.Chain(m, "p1"), "\n   "))
+				}
+				if e.ModsParam(m, 0) {
+					fmt.Printf("RECV %s %s\n   %s\n", r.ID(), m.Name(), strings.Join(e.Chain(m, "p0"), "\n   "))
+				}
+				for _, g := range e.ModGlobals(m) {
+					nglob++
+					fmt.Printf("GLOB %s %s %s\n   %s\n", r.ID(), m.Name(), g, strings.Join(e.Chain(m, "g:"+g.String()), "\n   "))
+				}
+			}
+		}
+		unk := map[string]bool{}
+		for _, f := range e.funcs {
+			for _, u := range e.sum[f].unk {
+				unk[u] = true
+			}
+		}
+		fmt.Println("object-mutating lint methods:", nobj, "global-writing:", nglob, "unknown bodyless:", len(unk))
+		for u := range unk {
+			fmt.Println("  bodyless:", u)
+		}
+	case "mapranges":
+		for _, f := range modFunctions(c) {
+			allInstrs(f, func(in ssa.Instruction) {
+				if rg, ok := in.(*ssa.Range); ok {
+					if _, isMap := rg.X.Type().Underlying().(*types.Map); isMap {
+						fmt.Printf("%s %s over %s\n", c.Pos(rg.Pos()), fname(f), apath(rg.X))
+					}
+				}
+			})
+		}
 	case "census":
 		cs := BuildCensus(c)
 		kinds := map[string]int{}
